@@ -19,6 +19,13 @@ var Corpus = [][]string{
 	// does not read is blocked) must not strand the last stub and what is before it
 	{"upstream u1 1", "create p1 u1 1", "connect p1 c1", "pause c1 server"},
 	{"upstream u1 1", "create p1 u1 1", "tadd p1 down t1 latency 400 0 0 1", "connect p1 c1", "sendnw c1 down 100", "sendnw c1 down 100", "abort c1 client"},
+	// C15: a toxic is removed (or everything reset) while its stub sits in a timer with its input
+	// already ended: the helpers of RemoveToxic must all end
+	{"upstream u1 1", "create p1 u1 1", "tadd p1 up t1 slow_close 400 0 0 1", "connect p1 c1", "send c1 up 5", "closenw c1 client", "tdel p1 t1"},
+	{"upstream u1 1", "create p1 u1 1", "tadd p1 up t1 slow_close 400 0 0 1", "connect p1 c1", "send c1 up 5", "closenw c1 client", "treset p1"},
+	{"upstream u1 1", "create p1 u1 1", "tadd p1 down t1 latency 400 0 0 1", "connect p1 c1", "sendnw c1 down 5", "closenw c1 server", "tdel p1 t1"},
+	// C03: changing the upstream of a proxy drops the connections made so far
+	{"upstream u1 1", "upstream u2 1", "create p1 u1 1", "connect p1 c1", "send c1 up 3", "setupstream p1 u2", "connect p1 c2", "send c2 up 3"},
 }
 
 type tgen struct {
